@@ -27,9 +27,21 @@ LEAVES = ["0", "1", "2", "7", "(-1)", "(-7)", "2147483647", "(-2147483647-1)", "
 SMALL = ["1", "2", "3", "7", "(-1)", "2u"]
 
 
+# further operand forms of integer constant expressions: floating constants as the immediate operand of a cast, sizeof(type), _Bool casts
+EXTRA_LEAVES = ["((int)2.7)", "((unsigned char)3.9)", "((long long)1e10)", "((int)0.5f)", "sizeof(int)", "sizeof(long long)", "((_Bool)7)", "((int)sizeof(char))"]
+
+
 def exprs(tier, seed):
     """[(expr text, operator tag)] simplest first"""
     out = [(l, "leaf") for l in LEAVES]
+    out += [(l, "leaf-x") for l in EXTRA_LEAVES]
+    for op in UN:
+        out += [("(%s%s)" % (op, l), "un" + op + "-x") for l in EXTRA_LEAVES]
+    for t in TYPES:
+        out += [("((%s)%s)" % (t, l), "cast-x") for l in EXTRA_LEAVES]
+    for op in BIN:
+        out += [("(%s %s %s)" % (a, op, b), op + "-x") for a in EXTRA_LEAVES for b in SMALL]
+        out += [("(%s %s %s)" % (b, op, a), op + "-x") for a in EXTRA_LEAVES for b in SMALL]
     for op in UN:
         out += [("(%s%s)" % (op, l), "un" + op) for l in LEAVES]
     for t in TYPES:
